@@ -56,8 +56,19 @@ func Hash(sig [64]byte) uint64 { return verifC13H[sig[2]] }
 var verifC13PrefixA = [2]byte{0x01, 0x00}
 var verifC13PrefixB = [2]byte{0xff, 0xff}
 
-// verifC13Content: bucket A (n strictly increasing arbitrary hashes, eytzinger order by the real
-// eytzinger) then bucket B (one hash); returns content bytes, the two bucket offsets (relative to
+// verifC13Eytzinger: the eytzinger (BFS) order of a sorted slice - harness copy of the layout the
+// format defines (the writer's own function is exercised by C05).
+func verifC13Eytzinger(in, out []uint64, i, k int) int {
+	if k <= len(in) {
+		i = verifC13Eytzinger(in, out, i, 2*k)
+		out[k-1] = in[i]
+		i++
+		i = verifC13Eytzinger(in, out, i, 2*k+1)
+	}
+	return i
+}
+
+// verifC13Content: bucket A (n strictly increasing arbitrary hashes, eytzinger order) then bucket B (one hash); returns content bytes, the two bucket offsets (relative to
 // the content area) and the stored signatures.
 func verifC13Content(n int) (content []byte, offA, offB uint64, sigs [][64]byte) {
 	hs := make([]uint64, n)
@@ -72,7 +83,7 @@ func verifC13Content(n int) (content []byte, offA, offB uint64, sigs [][64]byte)
 		sigs = append(sigs, s)
 	}
 	laid := make([]uint64, n)
-	eytzinger(hs, laid, 0, 1)
+	verifC13Eytzinger(hs, laid, 0, 1)
 	put := func(count int, hashes []uint64) {
 		var b [8]byte
 		binary.LittleEndian.PutUint32(b[:4], uint32(count))
@@ -110,7 +121,7 @@ func VerifC13Bucketteer() {
 
 	T := int64(verifU16("T"))
 	verifAssume(T < N)
-	r, err := NewReader(&verifC13File{data: img, t: T, mmap: verifChoice("reader", 2) == 1})
+	r, err := NewReader(&verifC13File{data: img, t: T, mmap: verifChoice("reader", verifParam("readers", 2)) == 1})
 	if err != nil {
 		verifAssert(r == nil, "C13.bucketteer: NewReader returned both a reader and an error")
 		verifReach("open-error")
